@@ -72,7 +72,8 @@ def bounds(tier):
 
 # ----------------------------------------------------------------------------- initial trees
 SCHEMES = ("pow2-named", "pow2rev-unnamed", "ones-unnamed", "nasty-named")
-SMALL_SCHEMES = ("quotes-named",)  # only for <= 3 tips
+SMALL_SCHEMES = ("quotes-named", "blankends-named")  # only for <= 3 tips
+BLANKENDS = [" a", "b ", " c d "]  # a blank at the start / end of a name
 MID_SCHEMES = ("edgelike-mixed",)  # for <= 4 tips: user names that look like the library's generated ones, next to unnamed nodes
 EDGELIKE = ["edge.1", "b", "c", "d"]
 
@@ -80,14 +81,14 @@ EDGELIKE = ["edge.1", "b", "c", "d"]
 def initial_model(shape, scheme):
     """model tree for an unlabeled shape under a naming / length scheme"""
     n_edges = sum(1 for _ in _walk_shape(shape)) - 1
-    if scheme in ("pow2-named", "nasty-named", "quotes-named", "edgelike-mixed"):
+    if scheme in ("pow2-named", "nasty-named", "quotes-named", "edgelike-mixed", "blankends-named"):
         lens = [2.0 ** (k - 2) for k in range(n_edges)]
     elif scheme == "pow2rev-unnamed":
         lens = [2.0 ** (k - 2) for k in range(n_edges)][::-1]
     else:
         lens = [1.0] * n_edges
-    names = NASTY if scheme == "nasty-named" else (QUOTES if scheme == "quotes-named" else (EDGELIKE if scheme == "edgelike-mixed" else PLAIN))
-    named = scheme in ("pow2-named", "nasty-named", "quotes-named")
+    names = BLANKENDS if scheme == "blankends-named" else NASTY if scheme == "nasty-named" else (QUOTES if scheme == "quotes-named" else (EDGELIKE if scheme == "edgelike-mixed" else PLAIN))
+    named = scheme in ("pow2-named", "nasty-named", "quotes-named", "blankends-named")
     tip_i = itertools.count()
     int_i = itertools.count(1)
     len_i = iter(lens)
